@@ -43,6 +43,11 @@ SPEC = dict(
          'under one name, direct and through a symlink, a script runs fine, is then renamed away / replaced by a directory / '
          'by a dangling symlink / chmod 000 / restored by another process, and is called again each time (3 sequences through '
          'SafeCmdExecution, in quick one per wrapper, in thorough all through every wrapper): output or error, never a panic. '
+         'Failure streaks on ONE CmdSensor / CmdFan object (all calls of a history share the object): a good read, seven '
+         'consecutive failures of one kind (exit 1 / non-numeric output / no exec bit / vanished; the script reads its behaviour '
+         'from a mode file) or six-seven consecutive 2 s timeouts, then recovery and a good read, every call within timeout + '
+         'margin; quick: exit-1 through CmdSensor, garbage through CmdFan.GetPwm and the timeout streak through CmdSensor (~14 s, '
+         'beside the persistent history); thorough: every kind plus a mixed run through all four wrappers. '
          'Both drivers run in a fake desktop session: DISPLAY=:77, fake who / id / sudo / notify-send first in $PATH with a '
          'notification pipeline that takes 3 s, so a call that sends a desktop notification on an error path of command '
          'execution exceeds timeout + margin (on the unchanged tree none is sent: notify_calls stays empty).',
